@@ -33,7 +33,9 @@ motor command computed from it; line 0 is the launch state with the script's ini
   tid k t(ms) mode  e ex ey ez (mm, to the CURRENT commanded set-point pw_sp)  sp (mm, shift of pw_sp
   from the launch set-point)  tilt yaw (mrad)  rate (mrad/s)  m[4] lim (milli-rad/s)
   ri[3] imax[3] (1e-6 rad)  zi zmax (1e-6 m s)  nan (0/1)
-and on line 0 additionally  ic (the launch configuration) and n (number of lines of the trace).
+and on line 0 additionally  ic (the launch configuration: mode, attitude error q, commanded heading
+yaw, launch attitude q0 = yaw*q as signed integer quaternions, off, vel, rate) and n (number of
+lines of the trace).
 """
 from __future__ import annotations
 
